@@ -239,6 +239,8 @@ def run(ctx):
             tasks += [("fields", (cfg, df, [f], ctx.seed)) for f in range(8)]
         tasks.append(("misc", (cfg, ctx.seed)))
         tasks.append(("seqx", (cfg, 2)))
+    if ctx.thorough:
+        tasks += [("pi24", (lo, lo + (1 << 18))) for lo in range(0, 1 << 24, 1 << 18)]
     ctx.pmap(w_any, tasks)
     ctx.cov["exhaustive"] = True
     ctx.cov["configurations"] = cfgs
@@ -268,9 +270,28 @@ def w_seqx(arg):
     return acc.res()
 
 
+def w_pi24(arg):
+    """thorough: allcall.interrogator / capability / icao on a DF11 reply for EVERY value of the 24-bit overlay (the
+    implementation run on the whole field, so that a value it singles out through something it computes is met)."""
+    lo, hi = arg
+    acc = Acc()
+    hdr = ((11 << 3 | 5) << 24) | 0x4840D6
+    p0 = R.parity(hdr, 32)
+    for r in range(lo, hi):
+        m = "%08X%06X" % (hdr, p0 ^ r)
+        acc.n += 1
+        s = judge("P", "ic", (r, m))
+        if s:
+            acc.bad(s + ":overlay_sweep", {"cfg": "P", "kind": "ic", "p": [r, m]})
+    acc.out.add(("pi24", lo))
+    return acc.res()
+
+
 def w_any(t):
     if t[0] == "seqx":
         return w_seqx(t[1])
+    if t[0] == "pi24":
+        return w_pi24(t[1])
     return {"ids": w_ids, "fields": w_fields, "misc": w_misc}[t[0]](t[1])
 
 
@@ -280,4 +301,4 @@ def replay(case):
         s = replay_sequence(seq_thunks(case["tag"]), case["sequence"])
         return [(s, case)] if s else []
     s = judge(case["cfg"], case["kind"], tuple(case["p"]))
-    return [(s, case)] if s else []
+    return [(s, case), (s + ":overlay_sweep", case)] if s else []
